@@ -35,9 +35,26 @@ fn run_type<T: Acc>(tier: Tier, cheap: bool, s: &mut Sink, totals: &mut (u64, u6
 /// registers; every resulting register must satisfy the invariant, and the one-shot `ci`
 /// entry points must agree with the batch register
 fn long_history<T: Acc>(n: usize, s: &mut Sink) {
-    let a = T::alphabet();
-    let model: Vec<vcheck::models::Obs> = (0..n).map(|i| a[(i * 7 + i / 3) % a.len()]).collect();
-    let case = |shape: &str| json!({"check":"long","type":T::NAME,"n":n,"shape":shape});
+    long_history_scaled::<T>(n, 0, s)
+}
+
+/// the same history with every observation multiplied by 2^e (exact): partial states whose
+/// sums are far below (or above) 1 must merge exactly like any others
+fn long_history_scaled<T: Acc>(n: usize, e: i32, s: &mut Sink) {
+    use vcheck::models::Obs;
+    let k = 2f64.powi(e);
+    let a: Vec<Obs> = T::alphabet()
+        .iter()
+        .map(|o| match *o {
+            Obs::V(x) => Obs::V(x * k),
+            Obs::P(x, y) => Obs::P(x * k, y * k),
+            Obs::A(x) => Obs::A(x * k),
+            Obs::B(x) => Obs::B(x * k),
+            o => o,
+        })
+        .collect();
+    let model: Vec<Obs> = (0..n).map(|i| a[(i * 7 + i / 3) % a.len()]).collect();
+    let case = |shape: &str| json!({"check":"long","type":T::NAME,"n":n,"scale_exponent":e,"shape":shape});
     let parts: Vec<T> = model.chunks(100).map(|c| T::from_iter(c)).collect();
     let mut shapes: Vec<(&str, T)> = vec![];
     shapes.push(("from_iter", T::from_iter(&model)));
@@ -121,19 +138,20 @@ fn replay_case(case: &Value, s: &mut Sink) {
     }
     if case["check"] == "long" {
         let n = case["n"].as_u64().unwrap() as usize;
+        let e = case["scale_exponent"].as_i64().unwrap_or(0) as i32;
         match case["type"].as_str().unwrap_or("") {
-            "Arithmetic<f64>" => long_history::<Arithmetic<f64>>(n, s),
-            "Arithmetic<f32>" => long_history::<Arithmetic<f32>>(n, s),
-            "Geometric<f64>" => long_history::<Geometric<f64>>(n, s),
-            "Harmonic<f64>" => long_history::<Harmonic<f64>>(n, s),
-            "Geometric<f32>" => long_history::<Geometric<f32>>(n, s),
-            "Harmonic<f32>" => long_history::<Harmonic<f32>>(n, s),
-            "Paired<f64>" => long_history::<Paired<f64>>(n, s),
-            "Paired<f32>" => long_history::<Paired<f32>>(n, s),
-            "Unpaired<f64>" => long_history::<Unpaired<f64>>(n, s),
-            "Unpaired<f32>" => long_history::<Unpaired<f32>>(n, s),
-            "proportion::Stats" => long_history::<proportion::Stats>(n, s),
-            _ => long_history::<quantile::Stats>(n, s),
+            "Arithmetic<f64>" => long_history_scaled::<Arithmetic<f64>>(n, e, s),
+            "Arithmetic<f32>" => long_history_scaled::<Arithmetic<f32>>(n, e, s),
+            "Geometric<f64>" => long_history_scaled::<Geometric<f64>>(n, e, s),
+            "Harmonic<f64>" => long_history_scaled::<Harmonic<f64>>(n, e, s),
+            "Geometric<f32>" => long_history_scaled::<Geometric<f32>>(n, e, s),
+            "Harmonic<f32>" => long_history_scaled::<Harmonic<f32>>(n, e, s),
+            "Paired<f64>" => long_history_scaled::<Paired<f64>>(n, e, s),
+            "Paired<f32>" => long_history_scaled::<Paired<f32>>(n, e, s),
+            "Unpaired<f64>" => long_history_scaled::<Unpaired<f64>>(n, e, s),
+            "Unpaired<f32>" => long_history_scaled::<Unpaired<f32>>(n, e, s),
+            "proportion::Stats" => long_history_scaled::<proportion::Stats>(n, e, s),
+            _ => long_history_scaled::<quantile::Stats>(n, e, s),
         }
         return;
     }
@@ -191,6 +209,13 @@ fn main() {
             Box::new(|s| long_history::<Harmonic<f64>>(20_000, s)),
             Box::new(|s| long_history::<Geometric<f32>>(100_000, s)),
             Box::new(|s| long_history::<Harmonic<f32>>(100_000, s)),
+            Box::new(|s| long_history_scaled::<Arithmetic<f64>>(20_000, -60, s)),
+            Box::new(|s| long_history_scaled::<Arithmetic<f64>>(20_000, 60, s)),
+            Box::new(|s| long_history_scaled::<Arithmetic<f32>>(20_000, -30, s)),
+            Box::new(|s| long_history_scaled::<Arithmetic<f32>>(20_000, 30, s)),
+            Box::new(|s| long_history_scaled::<Paired<f64>>(20_000, -60, s)),
+            Box::new(|s| long_history_scaled::<Unpaired<f64>>(20_000, -60, s)),
+            Box::new(|s| long_history_scaled::<Unpaired<f32>>(20_000, -20, s)),
             Box::new(|s| long_history::<Paired<f64>>(20_000, s)),
             Box::new(|s| long_history::<Paired<f32>>(100_000, s)),
             Box::new(|s| long_history::<Unpaired<f64>>(20_000, s)),
